@@ -6,7 +6,7 @@ import threading
 import time
 
 from .. import observe
-from ..observe import (Event, Interpreter, MachineLogic, SyncInterpreter, config_of,
+from ..observe import (Event, Interpreter, MachineLogic, SyncInterpreter, config_of, drain,
                        create_machine, run_virtual)
 from .common import Result, Watchdog, h, rng_for
 
@@ -111,6 +111,32 @@ def build(kind, with_on_error, plans, log: Log, engine, kids):
             if out == "raise":
                 raise ServiceBoom("call-%d" % n)
             return {"call": n}
+    elif kind == "awaitable":
+        # a plain callable that hands back an awaitable which is NOT a coroutine object: a Task,
+        # or an object with __await__ (what run_in_executor / a client library typically returns)
+        async def inner(n, T, out):
+            try:
+                await asyncio.sleep(T / 1e3)
+            except asyncio.CancelledError:
+                log.add("svc-cancelled", n)
+                raise
+            log.add("svc-complete", n, out)
+            if out == "raise":
+                raise ServiceBoom("call-%d" % n)
+            return {"call": n}
+
+        class Later:
+            def __init__(self, coro):
+                self.coro = coro
+
+            def __await__(self):
+                return self.coro.__await__()
+
+        def svc(interp, ctx, event):
+            n = note_call(event)
+            T, out = plan_for(n)
+            c = inner(n, T, out)
+            return asyncio.ensure_future(c) if n % 2 == 0 else Later(c)
     else:  # child machine: completes via its own timer after T ms (plan of call 0 for all)
         T0 = plans[0][0]
 
@@ -430,6 +456,71 @@ def random_script(rng, T):
     return ops
 
 
+def rollback_reentry_scenario(res, how, fail_on, T):
+    """Async engine: a transition exits and re-enters the invoking state and then fails deeper in the
+    same transition (a spawn factory yielding no machine).  After the rollback the state is active
+    once, so exactly one service instance may be alive for it and exactly one completion may be
+    processed when it returns."""
+    calls = {"n": 0}
+    log = []
+    kid = create_machine({"id": "kid", "initial": "a", "states": {"a": {}}}, logic=MachineLogic())
+
+    def factory(i, c, e):
+        calls["n"] += 1
+        return None if calls["n"] == fail_on else kid
+    live = {"n": 0, "started": 0}
+
+    async def svc(i, c, e):
+        live["n"] += 1
+        live["started"] += 1
+        k = live["started"]
+        try:
+            await asyncio.sleep(T / 1e3)
+            return k
+        finally:
+            live["n"] -= 1
+    w = {"initial": "c", "invoke": {"src": "svc", "id": "job", "onDone": {"actions": ["done"]}},
+         "on": {"SELF": {"target": "w", "reenter": True}},
+         "states": {"c": {"entry": [{"type": "spawn_kidm"}],
+                          "on": {"UP": {"target": "#m.w", "reenter": True}}}}}
+    cfg = {"id": "m", "initial": "w", "states": {"w": w}}
+    machine = create_machine(cfg, logic=MachineLogic(
+        actions={"done": lambda i, c, e, a: log.append(("done", getattr(e, "data", None)))},
+        services={"svc": svc, "kidm": factory}))
+    ev = {"self": "SELF", "up": "UP"}[how]
+    out = {}
+
+    async def body():
+        it = Interpreter(machine)
+        await it.start()
+        await drain(it, max_yields=200)
+        for _ in range(fail_on - 2):
+            await it.send(ev)
+            await drain(it, max_yields=200)
+        n0 = len(log)
+        await it.send(ev)                 # this one fails after the re-entry
+        await drain(it, max_yields=200)
+        out["live"] = live["n"]
+        await asyncio.sleep(3 * T / 1e3)
+        out["done"] = log[n0:]
+        await it.stop()
+        await asyncio.sleep(0.001)
+        out["live_after_stop"] = live["n"]
+    run_virtual(body)
+    res.evaluations += 1
+    res.count("rollback-reentry.scenarios")
+    res.hashes.add(h(["rollback-reentry", how, fail_on, T]))
+    wit = {"event": ev, "spawn_factory_fails_on_call": fail_on, "config": cfg, "observed": out}
+    if out.get("live") != 1:
+        res.violation("C09:service-instances-alive-for-one-activation/%s/async" % how,
+                      "%s live instances of the service after the rolled-back re-entry" % out.get("live"), wit)
+    elif len(out.get("done", [])) != 1:
+        res.violation("C09:completion-processed-%d-times/%s/async" % (len(out.get("done", [])), how),
+                      "completions processed after the rolled-back re-entry: %s" % (out.get("done"),), wit)
+    if out.get("live_after_stop"):
+        res.violation("C09:service-alive-after-stop/%s/async" % how, "%d" % out["live_after_stop"], wit)
+
+
 def run_chunk(spec):
     observe.quiet_logs()
     res = Result()
@@ -440,7 +531,7 @@ def run_chunk(spec):
     T = 8
     outcome_sets = [[(T, "ret")], [(T, "raise")], [(T, "ret"), (3, "raise"), (T, "ret")],
                     [(T, "raise"), (T, "ret")], [(2, "ret"), (T + 5, "ret")]]
-    for kind in ("plain", "coro", "machine", "machineslow"):
+    for kind in ("plain", "coro", "awaitable", "machine", "machineslow"):
         for with_on_error in (True, False):
             for plans in outcome_sets:
                 if kind.startswith("machine") and (plans[0][1] != "ret" or len(plans) > 1):
@@ -449,7 +540,7 @@ def run_chunk(spec):
                     jobs.append(("async", kind, with_on_error, plans, script, name))
     nrand = 30 if tier == "quick" else 20000
     for j in range(nrand * NCHUNKS):
-        kind = ("plain", "coro", "coro", "machine", "machineslow")[j % 5]
+        kind = ("plain", "coro", "awaitable", "machine", "machineslow", "coro")[j % 6]
         plans = [(rng.choice([1, 3, T, T + 4]), rng.choice(["ret", "ret", "raise"])) for _ in range(4)]
         if kind.startswith("machine"):
             plans = [(rng.choice([3, T]), "ret")]
@@ -484,6 +575,14 @@ def run_chunk(spec):
         if n < 1 and ci == 0:
             res.sample(wit)
             n += 1
+    k = 0
+    for how in ("self", "up"):
+        for fail_on in (2, 3, 4):
+            for T in (3, 8):
+                if k % NCHUNKS == ci:
+                    wd.arm("rollback re-entry %s %d" % (how, fail_on))
+                    rollback_reentry_scenario(res, how, fail_on, T)
+                k += 1
     wd.disarm()
     return res.to_json()
 
@@ -492,7 +591,7 @@ def quota(counters, tier):
     out = []
     for k in ("schedules.async", "schedules.sync", "service-calls", "handler-firings",
               "schedules.kind.plain", "schedules.kind.coro", "schedules.kind.machine",
-              "schedules.kind.machineslow",
+              "schedules.kind.machineslow", "schedules.kind.awaitable", "rollback-reentry.scenarios",
               "unhandled-failures", "census.after-exit", "schedules.with-leave-or-reentry"):
         if counters.get(k, 0) == 0:
             out.append("monitor-never-reached:" + k)
